@@ -16,8 +16,17 @@ under test, judge the start / end / duration the library REPORTS:
      get_start_time; MultiRelationLink = first latest-ending member) against the reported times of the referenced operation,
      in every state: built, unrolled, flattened.
 
-Times are read AFTER `circuit.operations` (whose first call hands the sub-circuit's link down to its first operations:
-through the public API the operations of a nested copy are reachable no other way) and after `common.clear_caches()`.
+COLD pass (oracles A and B): times are read AFTER `circuit.operations` (whose first call hands the sub-circuit's link down to
+its first operations: through the public API the operations of a nested copy are reachable no other way) and after
+`common.clear_caches()`, i.e. the equations are judged modulo memo coherence.
+
+WARM pass (deterministic families): the times the library REPORTS when nothing is cleared: memos cleared, build,
+apply_modifiers when something is repeated, then history 'listing' (circuit.operations, start/end of every listed operation) or
+'duration-first' (circuit.duration before that); the reported values must equal an own recursive solution of the relation
+equations over the link fields.  Keys `C01:warm:<clause>:<history>:<cause class from the program>`.
+
+Every failure record carries `instances` (fingerprints of the failing inputs of the deterministic families, which do not depend
+on --seed and run first); all failing inputs are written to <out>.instances.json.
 
 See bounded/README.md for the command line and the output format.
 """
@@ -1221,7 +1230,7 @@ def run_job(job):
             programs = expand_slice(job)
         for program in programs:
             if _DEADLINE[0] is not None and time.time() > _DEADLINE[0]:
-                stats.skip("time budget of the tier exhausted" + (" (deterministic family)" if job.get("det") else ""))
+                stats.skip("time budget of the tier exhausted" + ((" (deterministic family, warm pass)" if job.get("pass") == "warm" else " (deterministic family, cold pass)") if job.get("det") else ""))
                 continue
             if job.get("pass") == "warm":
                 for history in HISTORIES:
@@ -1718,7 +1727,9 @@ def main(argv=None):
     for k, f in total.failures.items():
         f.pop("_size", None)
         d = total.instances.get(k, {})
-        f["instances"] = {"complete": bool(det_complete and k not in total.inst_overflow), "count": int(total.inst_count.get(k, 0)), "fps": sorted(d)}
+        part_complete = not any(k_.startswith("harness") for k_ in total.skipped) and \
+            not any(("warm pass" if k.startswith(f"{PROP}:warm:") else "cold pass") in k_ for k_ in cut)
+        f["instances"] = {"complete": bool(part_complete and k not in total.inst_overflow), "count": int(total.inst_count.get(k, 0)), "fps": sorted(d)}
         all_instances.update(d)
     if args.out:
         base = args.out[:-5] if args.out.endswith(".json") else args.out
